@@ -305,6 +305,7 @@ def daemon_cases(seed, n, first_id=0, steps=(40, 90), faults="some"):
     cases = []
     for k in range(n):
         with_faults = faults == "all" or (faults == "some" and k % 3 == 2)
+        rich = k % 2 == 1        # multi-statement transactions, long readers, disable / enable
         sched = [["DaemonStart"]]
         for _ in range(rnd.randint(*steps)):
             x = rnd.random()
@@ -323,6 +324,20 @@ def daemon_cases(seed, n, first_id=0, steps=(40, 90), faults="some"):
                 sched.append(["AppCheckpoint", rnd.choice(["PASSIVE", "FULL", "RESTART", "TRUNCATE"])])
             elif x < 0.79:
                 sched.append(["AppDDL", rnd.randint(0, 7)])
+            elif x < 0.82 and rich:
+                # a multi-statement transaction whose frames spill into the WAL before it commits or rolls back
+                blk = [["AppBegin"]]
+                for _ in range(rnd.randint(1, 3)):
+                    blk.append(rnd.choice([["AppSpill", rnd.randint(1, 4), rnd.randint(0, 5)], ["Sleep", rnd.randint(5, 40)], ["SyncWait"]]))
+                blk.append(["AppSpill", rnd.randint(1, 3), rnd.randint(0, 5)])
+                blk.append(rnd.choice([["AppCommit"], ["AppCommit"], ["AppRollback"]]))
+                sched += blk
+            elif x < 0.84 and rich:
+                # a long application reader pins the WAL for a while
+                sched += [["ReaderOpen"]] + [rnd.choice([["AppWrite", rnd.randint(1, 6)], ["Sleep", rnd.randint(5, 40)], ["AppGrow", 1]]) for _ in range(rnd.randint(1, 4))] + [["ReaderClose"]]
+            elif x < 0.855 and rich:
+                # the daemon disables and re-enables the database while its monitors keep running
+                sched += [["StDisable"]] + [rnd.choice([["AppWrite", rnd.randint(1, 6)], ["Sleep", rnd.randint(5, 30)], ["AppCheckpoint", "TRUNCATE"]]) for _ in range(rnd.randint(0, 3))] + [["StEnable"]]
             elif x < 0.87:
                 sched.append(["SyncWait"])
             else:
@@ -343,7 +358,7 @@ def daemon_cases(seed, n, first_id=0, steps=(40, 90), faults="some"):
         cfg["daemon"] = {"monMs": rnd.choice([5, 10, 25]), "syncMs": rnd.choice([5, 10, 30]),
                          "l1Ms": 60 if fast else 150, "l2Ms": 200 if fast else 450, "snapMs": rnd.choice([250, 500, 900]),
                          "snapRetMs": rnd.choice([300, 700, 1500]), "l0RetMs": rnd.choice([50, 150, 400]), "l0CheckMs": rnd.choice([40, 90]),
-                         "shutdownMs": 3000, "validateMs": rnd.choice([0, 150])}
+                         "shutdownMs": 3000, "validateMs": rnd.choice([0, 150]), "appAutoCkpt": rnd.choice([0, 0, 2, 8])}
         cases.append({"id": first_id + k, "cfg": cfg, "sched": sched, "label": "daemon"})
     return cases
 
